@@ -123,8 +123,8 @@ open P
 /-- PRECEDENCE AND ASSOCIATIVITY, FOR EVERY EXPRESSION TREE. Take any tree over atoms (identifiers, integer,
     string and boolean literals), registered binary operators, prefix operators (`!`, `-`), index expressions
     `a[i]`, `a[i][j]`, `f(x)[i]` (any expression as the index; an atom, an index or a call as the indexed operand) and
-    calls `f()`, `f(a, b, …)` of a plain function name with ANY number of arguments, each any expression of the
-    fragment; print it with the minimal parentheses that the
+    calls `f()`, `f(a, b, …)` of a plain function name and array literals `[]`, `[a, b, …]` with ANY number of
+    arguments / elements, each any expression of the fragment; print it with the minimal parentheses that the
     precedence table and LEFT associativity require (left operand at the operator's level, right operand one level
     tighter, the operand of a prefix operator tighter than every binary operator); put the tokens anywhere in a token array, followed by a token of lowest binding power. Then
     `parseExpression` at the lowest precedence returns exactly that tree, leaves the cursor on the expression's last
@@ -247,6 +247,26 @@ example : parseExpression 2000 Gen.LOWEST sCall = .ok (some eCall.toExpr, sCall.
   have := parse_print eCall sCall 2000 hwf rfl
     (by rw [hpr]; intro k hk
         rcases k with _|_|_|_|_|_|_|_|_|_|_|_|_|_|_|_|_|_|_|_|k <;> first | rfl | (simp at hk; omega))
+    (by rw [hpr]; decide) (by rw [hpr]; decide) (by rw [hpr]; decide) (by rw [hpr]; decide) (by decide)
+  rw [hpr] at this
+  exact this
+
+/-! non-vacuity for array literals: `[1, a[2], g()][1] - 3 %>` parses as `([1, a[2], g()][1]) - 3` -/
+def eArr : PE := .bin tMinus tLP tRP (.idx tLB tRB (.arr tLB tRB (.acons a1 tComma (.acons (.idx tLB tRB aA a2) tComma (.aone cG)))) a1) a3
+def sArrToks : Array Token := #[tLB, tI 49, tComma, tId 97, tLB, tI 50, tRB, tComma, tId 103, tLP, tRP, tRB, tLB, tI 49, tRB,
+  tMinus, tI 51, tEnd]
+def sArr : PS := { toks := sArrToks, eof := tEOF }
+
+example : parseExpression 2000 Gen.LOWEST sArr = .ok (some eArr.toExpr, sArr.at 16) := by
+  have hwf : eArr.WF := by
+    refine ⟨by decide, by decide, rfl, rfl, ⟨rfl, rfl, rfl, ⟨rfl, rfl, ?_⟩, rfl⟩, rfl⟩
+    exact ⟨rfl, rfl, ⟨rfl, rfl, rfl, rfl, rfl⟩, rfl, ⟨rfl, by decide, rfl, rfl⟩⟩
+  have hpr : pr (Gen.LOWEST + 1) eArr = [tLB, tI 49, tComma, tId 97, tLB, tI 50, tRB, tComma, tId 103, tLP, tRP, tRB, tLB, tI 49,
+      tRB, tMinus, tI 51] := by
+    decide
+  have := parse_print eArr sArr 2000 hwf rfl
+    (by rw [hpr]; intro k hk
+        rcases k with _|_|_|_|_|_|_|_|_|_|_|_|_|_|_|_|_|k <;> first | rfl | (simp at hk; omega))
     (by rw [hpr]; decide) (by rw [hpr]; decide) (by rw [hpr]; decide) (by rw [hpr]; decide) (by decide)
   rw [hpr] at this
   exact this
